@@ -53,7 +53,7 @@ def make_decls(cases, rng, q):
         return {"k": k, "b": b, "fn": "", "p": [], "sp": sp}
     for fam, kind in cases:
         if fam == "int":
-            tys = ["i8", "u8", "i32", "u64", "i128"] if q else list(INT_TYPES)
+            tys = ["i8", "u8", "i32", "u64", "i128", "u128", "isize"] if q else list(INT_TYPES)
             for ty in tys:
                 lo, hi = INT_TYPES[ty]
                 bounds = [5, 100] + ([-5, -100] if lo < 0 else [1]) + [lo + 1, hi - 1, 0 if lo < 0 else 2]
